@@ -164,6 +164,26 @@ func c18Positions() []c18Position {
 		{"definition-allOf-branch", true, func(f any) ([]genlab.File, []string) {
 			return one(J{"type": "object", "properties": J{"ok": ok, "d": J{"$ref": "#/$defs/D"}}, "$defs": J{"D": J{"allOf": A{q, f}}}})
 		}},
+		// an anyOf whose first member leads back to the definition that contains it (the position becomes interface{}): the members after it
+		// are still part of the schema
+		{"anyOf-member-property-after-recursive-member", true, func(f any) ([]genlab.File, []string) {
+			return one(J{"type": "object", "properties": J{"ok": ok, "n": J{"$ref": "#/$defs/Node"}}, "$defs": J{"Node": J{"type": "object", "properties": J{"v": ok,
+				"alt": J{"anyOf": A{J{"$ref": "#/$defs/Node"}, J{"type": "object", "properties": J{"bad": f}}}}}}}})
+		}},
+		{"anyOf-item-member-after-recursive-member", true, func(f any) ([]genlab.File, []string) {
+			return one(J{"type": "object", "properties": J{"ok": ok, "n": J{"$ref": "#/$defs/Node"}}, "$defs": J{"Node": J{"type": "object", "properties": J{"v": ok,
+				"kids": J{"type": "array", "items": J{"anyOf": A{J{"$ref": "#/$defs/Node"}, J{"type": "object", "properties": J{"bad": f}}}}}}}}})
+		}},
+		// an anyOf met while an enclosing anyOf still holds the same reference (no recursion): inside the items of an array member, and after
+		// the same reference listed twice
+		{"anyOf-in-array-member-of-anyOf-sharing-a-ref", true, func(f any) ([]genlab.File, []string) {
+			return one(J{"type": "object", "properties": J{"ok": ok, "c": J{"anyOf": A{J{"$ref": "#/$defs/N"},
+				J{"type": "array", "items": J{"anyOf": A{J{"$ref": "#/$defs/N"}, J{"type": "object", "properties": J{"bad": f}}}}}}}}, "$defs": J{"N": J{"type": "object", "properties": J{"k": ok}}}})
+		}},
+		{"anyOf-member-after-repeated-ref", true, func(f any) ([]genlab.File, []string) {
+			return one(J{"type": "object", "properties": J{"ok": ok, "c": J{"anyOf": A{J{"$ref": "#/$defs/N"}, J{"$ref": "#/$defs/N"}, J{"type": "object", "properties": J{"bad": f}}}}},
+				"$defs": J{"N": J{"type": "object", "properties": J{"k": ok}}}})
+		}},
 		{"typeless-root-property", true, func(f any) ([]genlab.File, []string) {
 			return one(J{"properties": J{"ok": ok, "bad": f}})
 		}},
